@@ -8,7 +8,7 @@ from check_c01 import okoc
 from vlib import lit, ref, tmap
 
 GATES = ['wf.main.beforeKickoff', 'wf.main.beforeSelect', 'wf.handler.beforeLock', 'wf.failure.beforeLock', 'wf.det.beforeLock',
-         'plugin.deploy.beforeTry', 'plugin.deploy.beforeWait', 'plugin.deploy.beforeDeploy', 'plugin.enable.beforeRecv',
+         'plugin.deploy.beforeTry', 'plugin.deploy.beforeWait', 'plugin.deploy.afterMiss', 'plugin.deploy.beforeDeploy', 'plugin.enable.beforeRecv',
          'plugin.enable.afterRecv', 'plugin.start.beforeRecv', 'plugin.start.beforeReadSchema', 'plugin.exec.afterResult',
          'plugin.run.beforeSelect', 'plugin.transition.before', 'x.deploy.run',
          'ev:SSet', 'ev:SSlot', 'ev:SProv', 'ev:HEnter', 'ev:Pop', 'ev:Provide', 'ev:SExec', 'ev:SConn', 'ev:Resolve']
@@ -44,7 +44,7 @@ def shapes(rng):
     return out
 
 
-DEPLOY_GATES = ['plugin.deploy.beforeTry', 'plugin.deploy.beforeWait', 'plugin.deploy.beforeDeploy', 'x.deploy.run', 'wf.main.beforeKickoff']
+DEPLOY_GATES = ['plugin.deploy.beforeTry', 'plugin.deploy.beforeWait', 'plugin.deploy.afterMiss', 'plugin.deploy.beforeDeploy', 'x.deploy.run', 'wf.main.beforeKickoff']
 
 
 def extra(ctx):
@@ -71,6 +71,16 @@ def extra(ctx):
                                   {'point': 'plugin.deploy.beforeWait', 'step': st, 'nth': 1, 'ms': hold}]}
                 items.append({'wf': wf, 'oc': oc, 'script': script, 'input': {'x': 'x', 'n': 1, 'flag': False}, 'schedule': sch,
                               'extra': {'timeout_ms': 15000}, 'stall': 'wf.main.beforeKickoff+plugin.deploy.beforeWait@%s#1' % st})
+        # three sites (Engine.tla, chain2/fan2: DetectorSoundModuloInFlight with DeployWaitChecked = FALSE): the first look
+        # misses, the kick-off provides while the step is between the miss and its state update, then the step is held
+        # after the update with its input sitting in the channel while the other step finishes and arms the detector
+        for st in steps:
+            for kick, mid, hold in ([(30, 60, 200)] if ctx.quick else [(30, 60, 200), (10, 30, 120), (30, 60, 400), (50, 100, 250)]):
+                sch = {'stalls': [{'point': 'wf.main.beforeKickoff', 'step': '', 'nth': 1, 'ms': kick},
+                                  {'point': 'plugin.deploy.beforeWait', 'step': st, 'nth': 1, 'ms': mid},
+                                  {'point': 'plugin.deploy.afterMiss', 'step': st, 'nth': 1, 'ms': hold}]}
+                items.append({'wf': wf, 'oc': oc, 'script': script, 'input': {'x': 'x', 'n': 1, 'flag': False}, 'schedule': sch,
+                              'extra': {'timeout_ms': 15000}, 'stall': 'wf.main.beforeKickoff+plugin.deploy.beforeWait+plugin.deploy.afterMiss@%s#1' % st})
         # random multi-site delays
         for k in range(6 if ctx.quick else 200):
             wf, oc, script, steps = rng.choice(sh)
@@ -84,6 +94,8 @@ def extra(ctx):
 
 
 def run(ctx):
+    import engine_model
+    engine_model.model_part(ctx, 'C09')
     prof = dict(max_steps=3, p_tag=0.0, p_error=0.2, p_enabled=0.3)
     def detail(f, it):
         if f['prop'] == 'C09' and it.get('stall'):
